@@ -33,6 +33,9 @@ func (m *ModelServer) Register(server grpc.ServiceRegistrar) {
 }
 
 func (m *ModelServer) ListConsumables(_ context.Context, request *traits.ListConsumablesRequest) (*traits.ListConsumablesResponse, error) {
+	if err := checkPageSize(request.GetPageSize()); err != nil {
+		return nil, err
+	}
 	pageToken := &types.PageToken{}
 	if err := decodePageToken(request.PageToken, pageToken); err != nil {
 		return nil, err
@@ -111,6 +114,9 @@ func (m *ModelServer) PullStock(request *traits.PullStockRequest, server traits.
 }
 
 func (m *ModelServer) ListInventory(_ context.Context, request *traits.ListInventoryRequest) (*traits.ListInventoryResponse, error) {
+	if err := checkPageSize(request.GetPageSize()); err != nil {
+		return nil, err
+	}
 	pageToken := &types.PageToken{}
 	if err := decodePageToken(request.PageToken, pageToken); err != nil {
 		return nil, err
